@@ -16,11 +16,17 @@
 //!   "de":      {"ty": "action"|"request"|"body_filter"|"header_filter"|"status_code_update"|"header"|"paq",
 //!               "j": tj (mutated), "atoms": {...}}
 //!              obs {"ok": bool, "text": to_string(value) | null}
+//!              a "de" case may carry "text": "<document>" instead of "j": the document goes to from_str as is
+//!              (random white space, escape styles, float spellings, unpaired surrogates, syntax errors) and the
+//!              model reads it with its own text parser (Model/JsonText.lean).
+//!   "parse":   {"text": "<document>"}  obs {"ok": bool, "text": print of the ordered tree serde_json reads (floats
+//!              normalised) | null} — the model's reader against serde_json's, token by token.
 //! "atoms": {"ip": [[s, canonical|null], ...], "dt": [[s, canonical|null], ...]} is the graph of the two opaque
 //! atom parsers (std::net::IpAddr, chrono::DateTime<Utc>) on the strings of `j`; `run` recomputes it and
 //! declares the case invalid when it is stale (shrinking), and checks the canonical-fixed-point law.
 use redirectionio::action::{Action, UnitTrace};
 use redirectionio::api::{BodyFilter, Example, HeaderFilter, Rule};
+use redirectionio::filter::{Buffer, FilterBodyAction};
 use redirectionio::http::ffi::{
     header_map_to_http_headers, http_headers_to_header_map, redirectionio_request_drop, redirectionio_request_json_deserialize,
     redirectionio_request_json_serialize, HeaderMap,
@@ -43,6 +49,9 @@ extern "C" {
     fn redirectionio_action_get_status_code(a: *mut Action, code: u16) -> u16;
     fn redirectionio_action_should_log_request(a: *mut Action, allow: bool, code: u16) -> bool;
     fn redirectionio_action_header_filter_filter(a: *mut Action, hm: *const HeaderMap, code: u16, add: bool) -> *const HeaderMap;
+    fn redirectionio_action_body_filter_create(a: *mut Action, code: u16, hm: *const HeaderMap) -> *const FilterBodyAction;
+    fn redirectionio_action_body_filter_filter(f: *mut FilterBodyAction, b: Buffer) -> Buffer;
+    fn redirectionio_action_body_filter_close(f: *mut FilterBodyAction) -> Buffer;
 }
 
 // ------------------------------------------------------------------------------------------------
@@ -146,6 +155,14 @@ impl J {
                 }
                 out.push('}');
             }
+        }
+    }
+    fn norm_floats(&self) -> J {
+        match self {
+            J::F(_) => J::F("1.5".to_string()),
+            J::A(xs) => J::A(xs.iter().map(|x| x.norm_floats()).collect()),
+            J::O(kvs) => J::O(kvs.iter().map(|(k, v)| (k.clone(), v.norm_floats())).collect()),
+            other => other.clone(),
         }
     }
     fn print(&self) -> String {
@@ -447,7 +464,7 @@ fn observe(a: &Action, codes: &[u16], headers: &[Header], bodies: &[Vec<u8>]) ->
 }
 
 /// the same observers through the C entry points
-fn observe_c(a: *mut Action, codes: &[u16], headers: &[Header]) -> Value {
+fn observe_c(a: *mut Action, codes: &[u16], headers: &[Header], bodies: &[Vec<u8>]) -> Value {
     let mut out = Vec::new();
     for &c in codes {
         unsafe {
@@ -456,7 +473,18 @@ fn observe_c(a: *mut Action, codes: &[u16], headers: &[Header]) -> Value {
             let hm2 = redirectionio_action_header_filter_filter(a, hm, c, true);
             let hs: Vec<Value> = header_map_to_http_headers(hm2).iter().map(|h| json!([h.name, h.value])).collect();
             let l = redirectionio_action_should_log_request(a, true, c);
-            out.push(json!({"c": c, "sc": sc, "hs": hs, "log": l}));
+            let mut bods = Vec::new();
+            for b in bodies {
+                let f = redirectionio_action_body_filter_create(a, c, http_headers_to_header_map(headers.to_vec())) as *mut FilterBodyAction;
+                if f.is_null() {
+                    bods.push(Value::Null);
+                } else {
+                    let mut o = redirectionio_action_body_filter_filter(f, Buffer::from_vec(b.clone())).into_vec();
+                    o.extend(redirectionio_action_body_filter_close(f).into_vec());
+                    bods.push(json!(hex(&o)));
+                }
+            }
+            out.push(json!({"c": c, "sc": sc, "hs": hs, "log": l, "body": bods}));
         }
     }
     Value::Array(out)
@@ -593,6 +621,23 @@ fn run_action(case: &Value, j: &J) -> Obs {
         }
         return o.fail(format!("observers differ after the round trip: {which}"), "action-rt-behaviour");
     }
+    // ---- an action that has been *used* (non-empty rules_applied) survives the hand-off too
+    for &c in codes.iter().take(4) {
+        let mut x = a.clone();
+        x.get_status_code(c, None);
+        x.filter_headers(headers.clone(), c, false, None);
+        x.create_filter_body(c, &headers);
+        x.should_log_request(true, c, None);
+        let t = serde_json::to_string(&x).unwrap();
+        match serde_json::from_str::<Action>(&t) {
+            Err(e) => return o.fail(format!("used action does not deserialise: {e}"), "action-rt-used"),
+            Ok(x2) => {
+                if serde_json::to_string(&x2).unwrap() != t || format!("{x:?}") != format!("{x2:?}") {
+                    return o.fail(format!("used action changes in the round trip: {t}"), "action-rt-used");
+                }
+            }
+        }
+    }
     // ---- oracle 2: the C entry points
     unsafe {
         let boxed = Box::into_raw(Box::new(a.clone()));
@@ -610,8 +655,16 @@ fn run_action(case: &Value, j: &J) -> Obs {
             return o.fail("C deserialize returns null", "action-c-deserialize");
         }
         let ctext3 = c_string_take(redirectionio_action_json_serialize(a3));
-        let oc1 = observe_c(boxed, &codes, &headers);
-        let oc3 = observe_c(a3, &codes, &headers);
+        let oc1 = observe_c(boxed, &codes, &headers, &bodies);
+        let oc3 = observe_c(a3, &codes, &headers, &bodies);
+        // the last code's accumulated applied-rule ids travel too
+        let used1 = c_string_take(redirectionio_action_json_serialize(boxed));
+        let used3 = c_string_take(redirectionio_action_json_serialize(a3));
+        if used1 != used3 {
+            redirectionio_action_drop(boxed);
+            redirectionio_action_drop(a3);
+            return o.fail("after the C observers the two actions serialise differently", "action-c-rt-behaviour");
+        }
         redirectionio_action_drop(boxed);
         redirectionio_action_drop(a3);
         if ctext3.as_deref() != Some(text.as_str()) {
@@ -734,19 +787,50 @@ fn de_generic<T: serde::de::DeserializeOwned + serde::Serialize>(text: &str) -> 
     }
 }
 
-fn run_de(case: &Value, j: &J) -> Obs {
-    let text = j.print();
-    // glue self-check: the text we hand to serde_json parses back to the same tree
-    match J::parse(&text) {
-        Ok(j2) if j2 == *j => {}
-        Ok(_) => return Obs::invalid("tagged tree is not what serde_json reads from its print (number class?)"),
-        Err(e) => {
-            // only the recursion limit can make a printed tree unparsable
-            if j.depth() < 128 {
-                return Obs::invalid(&format!("printed tree does not parse: {e}"));
-            }
+fn run_parse(case: &Value) -> Obs {
+    let text = match opt_s(case, "text") {
+        Some(t) => t,
+        None => return Obs::invalid("text"),
+    };
+    let (obs, ok) = match J::parse(&text) {
+        Ok(j) => (json!({"ok": true, "text": j.norm_floats().print()}), true),
+        Err(_) => (json!({"ok": false, "text": null}), false),
+    };
+    let mut o = Obs::new(obs);
+    o.tags.push(format!("parse:{}", if ok { "accept" } else { "reject" }));
+    for m in case.get("mut").and_then(|m| m.as_array()).into_iter().flatten() {
+        if let Some(m) = m.as_str() {
+            o.tags.push(format!("tmut:{m}:{}", if ok { "accept" } else { "reject" }));
         }
     }
+    o
+}
+
+fn run_de(case: &Value, j: Option<&J>) -> Obs {
+    let from_text = j.is_none();
+    let text = match j {
+        Some(j) => {
+            let text = j.print();
+            // glue self-check: the text we hand to serde_json parses back to the same tree
+            match J::parse(&text) {
+                Ok(j2) if j2 == *j => {}
+                Ok(_) => return Obs::invalid("tagged tree is not what serde_json reads from its print (number class?)"),
+                Err(e) => {
+                    // only the recursion limit can make a printed tree unparsable
+                    if j.depth() < 128 {
+                        return Obs::invalid(&format!("printed tree does not parse: {e}"));
+                    }
+                }
+            }
+            text
+        }
+        None => match opt_s(case, "text") {
+            Some(t) => t,
+            None => return Obs::invalid("j / text"),
+        },
+    };
+    let parsed = if from_text { J::parse(&text).ok() } else { None };
+    let j: Option<&J> = if from_text { parsed.as_ref() } else { j };
     let ty = opt_s(case, "ty").unwrap_or_default();
     let (obs, why) = match ty.as_str() {
         "action" => de_generic::<Action>(&text),
@@ -760,13 +844,16 @@ fn run_de(case: &Value, j: &J) -> Obs {
         _ => return Obs::invalid("ty"),
     };
     if ty == "request" {
-        if let Err(o) = check_atoms(case, j) {
-            return o;
+        // a document serde_json cannot read as a whole (junk under an unknown key) keeps the table it came with
+        if let Some(j) = j {
+            if let Err(o) = check_atoms(case, j) {
+                return o;
+            }
         }
     }
     let ok = obs["ok"].as_bool().unwrap_or(false);
     let mut o = Obs::new(obs);
-    o.tags.push(format!("de:{ty}:{}", if ok { "accept" } else { "reject" }));
+    o.tags.push(format!("de{}:{ty}:{}", if from_text { "-text" } else { "" }, if ok { "accept" } else { "reject" }));
     for m in case.get("mut").and_then(|m| m.as_array()).into_iter().flatten() {
         if let Some(m) = m.as_str() {
             o.tags.push(format!("mut:{m}:{}", if ok { "accept" } else { "reject" }));
@@ -779,14 +866,21 @@ fn run_de(case: &Value, j: &J) -> Obs {
 }
 
 fn run(case: &Value) -> Obs {
+    let k = case.get("k").and_then(|k| k.as_str());
+    if k == Some("parse") {
+        return run_parse(case);
+    }
+    if k == Some("de") && case.get("j").is_none() {
+        return run_de(case, None);
+    }
     let j = match case.get("j").and_then(J::untag) {
         Some(j) => j,
         None => return Obs::invalid("j"),
     };
-    match case.get("k").and_then(|k| k.as_str()) {
+    match k {
         Some("action") => run_action(case, &j),
         Some("request") => run_request(case, &j),
-        Some("de") => run_de(case, &j),
+        Some("de") => run_de(case, Some(&j)),
         _ => Obs::invalid("k"),
     }
 }
@@ -1320,6 +1414,170 @@ fn subvalues(j: &J, out: &mut Vec<(&'static str, J)>) {
     }
 }
 
+/// a spelling of the document other than the canonical one: white space, escape styles, float spellings
+fn noisy_str(rng: &mut Prng, s: &str, out: &mut String) {
+    out.push('"');
+    for ch in s.chars() {
+        let n = ch as u32;
+        let style = rng.below(8);
+        if n < 0x20 || ch == '"' || ch == '\\' || style == 0 {
+            // must / may be escaped
+            let short = match ch {
+                '"' => Some("\\\""),
+                '\\' => Some("\\\\"),
+                '/' => Some("\\/"),
+                '\u{8}' => Some("\\b"),
+                '\u{c}' => Some("\\f"),
+                '\n' => Some("\\n"),
+                '\r' => Some("\\r"),
+                '\t' => Some("\\t"),
+                _ => None,
+            };
+            match short {
+                Some(e) if rng.chance(2, 3) => out.push_str(e),
+                _ => {
+                    let mut units = [0u16; 2];
+                    for u in ch.encode_utf16(&mut units) {
+                        if rng.chance(1, 2) {
+                            out.push_str(&format!("\\u{:04x}", u));
+                        } else {
+                            out.push_str(&format!("\\u{:04X}", u));
+                        }
+                    }
+                }
+            }
+        } else {
+            out.push(ch);
+        }
+    }
+    out.push('"');
+}
+
+fn noisy_ws(rng: &mut Prng, out: &mut String) {
+    if rng.chance(1, 5) {
+        out.push_str(*rng.pick(&[" ", "\n", "\t", "\r", "  ", " \n "]));
+    }
+}
+
+fn noisy(rng: &mut Prng, j: &J, out: &mut String) {
+    noisy_ws(rng, out);
+    match j {
+        J::S(s) => noisy_str(rng, s, out),
+        J::A(xs) => {
+            out.push('[');
+            for (i, x) in xs.iter().enumerate() {
+                if i > 0 {
+                    out.push(',');
+                }
+                noisy(rng, x, out);
+            }
+            noisy_ws(rng, out);
+            out.push(']');
+        }
+        J::O(kvs) => {
+            out.push('{');
+            for (i, (k, x)) in kvs.iter().enumerate() {
+                if i > 0 {
+                    out.push(',');
+                }
+                noisy_ws(rng, out);
+                noisy_str(rng, k, out);
+                noisy_ws(rng, out);
+                out.push(':');
+                noisy(rng, x, out);
+            }
+            noisy_ws(rng, out);
+            out.push('}');
+        }
+        J::U(n) if rng.chance(1, 40) => out.push_str(&match rng.below(6) {
+            0 => format!("{n}.0"),
+            1 => format!("{n}e0"),
+            2 => format!("{n}E+0"),
+            3 => format!("0{n}"),
+            4 => format!("-{n}"),
+            _ => format!("{n}.5e-1"),
+        }),
+        other => other.print_into(out),
+    }
+    noisy_ws(rng, out);
+}
+
+const JUNK_STRS: &[&str] = &["\"\\ud800\"", "\"\\udc00\"", "\"a\\uD800b\"", "\"\\ud800\\u0041\"", "\"\\ud800\\ud800\\udc00\"", "\"\\ud83d\\ude00\"", "\"\\udbff\\udfff\"", "\"\\ud800\\n\"", "\"\\ud800\""];
+const EDIT_CHARS: &[&str] = &[",", ":", "{", "}", "[", "]", "\"", "\\", "0", "1", "-", ".", "e", "+", " ", "\n", "x", "null", "true", "\u{1}", "\u{7f}", "é", "\\u", "\\u00", "\\x", "//", "\u{feff}", "'", "1e999", "-0", "00", "0.", ".5", "1e", "[]", "{}", "\"\"", "\"k\":"];
+
+/// character-level edits of a document; returns the classes applied
+fn text_edits(rng: &mut Prng, text: &mut String, classes: &mut Vec<&'static str>) {
+    let n = rng.range(1, 2);
+    for _ in 0..n {
+        let bounds: Vec<usize> = text.char_indices().map(|(i, _)| i).chain(std::iter::once(text.len())).collect();
+        let at = bounds[rng.below(bounds.len())];
+        match rng.below(7) {
+            0 if at < text.len() => {
+                let end = bounds[bounds.iter().position(|&b| b == at).unwrap() + 1];
+                text.replace_range(at..end, "");
+                classes.push("t-delete-char");
+            }
+            1 => {
+                text.truncate(at);
+                classes.push("t-truncate");
+            }
+            2 => {
+                text.insert_str(at, *rng.pick(JUNK_STRS));
+                classes.push("t-insert-surrogate-str");
+            }
+            3 => {
+                // turn an existing string token into one with an unpaired surrogate: insert the escape after a quote
+                let quotes: Vec<usize> = text.char_indices().filter(|(_, c)| *c == '"').map(|(i, _)| i + 1).collect();
+                if !quotes.is_empty() {
+                    let q = *rng.pick(&quotes);
+                    text.insert_str(q, *rng.pick(&["\\ud800", "\\udfff", "\\ud800\\udc00", "\\u0041"]));
+                    classes.push("t-surrogate-in-str");
+                }
+            }
+            4 => {
+                // an unknown key whose value can only be skipped (unpaired surrogate): fine for a typed struct,
+                // fatal inside the buffered untagged body filter
+                let braces: Vec<usize> = text.char_indices().filter(|(_, c)| *c == '{').map(|(i, _)| i + 1).collect();
+                if !braces.is_empty() {
+                    let q = *rng.pick(&braces);
+                    let v = *rng.pick(&["\"\\ud800\"", "[\"\\udc00\"]", "{\"a\":[1,\"x\\uD800\\u0041\"]}", "\"\\ud83d\\ude00\"", "1e5", "[[[[\"\\udfff\"]]]]"]);
+                    text.insert_str(q, &format!("\"zz\":{v},"));
+                    classes.push("t-junk-unknown-key");
+                }
+            }
+            _ => {
+                text.insert_str(at, *rng.pick(EDIT_CHARS));
+                classes.push("t-insert");
+            }
+        }
+    }
+}
+
+fn emit_text(rng: &mut Prng, emit: &mut dyn FnMut(Value), ty: &str, j: &J, base_classes: &[&'static str], atoms_from: &J) -> usize {
+    let mut text = String::new();
+    let mut classes: Vec<&'static str> = base_classes.to_vec();
+    if rng.chance(1, 6) {
+        text = j.print();
+    } else {
+        noisy(rng, j, &mut text);
+        classes.push("t-noisy");
+    }
+    if rng.chance(2, 5) {
+        text_edits(rng, &mut text, &mut classes);
+    }
+    let atoms = if ty == "request" {
+        match J::parse(&text) {
+            Ok(p) => atoms_of(&p),
+            Err(_) => atoms_of(atoms_from),
+        }
+    } else {
+        Value::Null
+    };
+    emit(json!({"k": "de", "ty": ty, "text": text, "atoms": atoms, "mut": classes}));
+    emit(json!({"k": "parse", "text": text, "mut": classes}));
+    2
+}
+
 fn emit_de(emit: &mut dyn FnMut(Value), ty: &str, j: &J, muts: &[&str]) {
     emit(json!({"k": "de", "ty": ty, "j": j.tagged(), "atoms": if ty == "request" { atoms_of(j) } else { Value::Null }, "mut": muts}));
 }
@@ -1443,7 +1701,11 @@ fn gen(args: &Args, emit: &mut dyn FnMut(Value)) {
             }
             emit_de(emit, ty, &m, &classes);
             made += 1;
+            if rng.chance(1, 3) {
+                made += emit_text(&mut rng, emit, ty, &m, &classes, &m);
+            }
         }
+        made += emit_text(&mut rng, emit, ty, &j, &["none"], &j);
         if !subs.is_empty() {
             for _ in 0..rng.range(1, 3) {
                 let (sty, sj) = rng.pick(&subs).clone();
